@@ -174,6 +174,38 @@ def _run_with_autofix(cmd, out, text, linemap, meta, repo, tpath):
 
 
 def run_group(group, repo="/repo", extra_args=None, keep=False, seed=None):
+    """One Verus run; a FAILED result is confirmed under two more solver seeds before it is
+    believed: a genuine violation fails under every seed, an unstable proof does not.  Only
+    the functions that fail in ALL runs stay failed."""
+    r = _run_group_once(group, repo, extra_args, keep, seed)
+    if r["status"] != "failed":
+        return r
+    runs = [r]
+    for alt in ((seed or 0) + 17, (seed or 0) + 41):
+        r2 = _run_group_once(group, repo, extra_args, keep, alt)
+        runs.append(r2)
+        if r2["status"] == "ok":
+            r2["seed_retries"] = {"first_seed": seed, "ok_under_seed": alt,
+                                  "note": "the first run failed under solver seed %s (unstable proof, not a verdict)" % seed}
+            return r2
+        if r2["status"] == "undecided":
+            return r2
+    def failing(x):
+        return set(d["function"] for d in x["diags"] if d["kind"] == "semantic")
+    common = failing(runs[0])
+    for x in runs[1:]:
+        common &= failing(x)
+    if not common:
+        # every function was proved under some seed, though never all in one run
+        r["status"] = "undecided"
+        r["reason"] = "unstable proofs: no function fails under all of 3 solver seeds, but no single run proved the whole group"
+        return r
+    r["diags"] = [d for d in r["diags"] if d["kind"] != "semantic" or d["function"] in common]
+    r["seed_retries"] = {"seeds": [seed, (seed or 0) + 17, (seed or 0) + 41], "failing_under_all": sorted(str(c) for c in common)}
+    return r
+
+
+def _run_group_once(group, repo="/repo", extra_args=None, keep=False, seed=None):
     os.makedirs(WORK, exist_ok=True)
     tpath = os.path.join(VERIF, "contracts", group + ".vt")
     out = os.path.join(WORK, group + ".rs")
